@@ -214,8 +214,12 @@ func checkC03(c *Ctx) {
 					continue
 				}
 				for _, respell := range []func([]byte) []byte{
-					func(l []byte) []byte { return bytes.ReplaceAll(bytes.ReplaceAll(l, []byte("+"), []byte("-")), []byte("/"), []byte("_")) },
-					func(l []byte) []byte { return append(append([]byte{}, bytes.TrimSuffix(l, []byte("\n"))...), []byte("=\n")...) },
+					func(l []byte) []byte {
+						return bytes.ReplaceAll(bytes.ReplaceAll(l, []byte("+"), []byte("-")), []byte("/"), []byte("_"))
+					},
+					func(l []byte) []byte {
+						return append(append([]byte{}, bytes.TrimSuffix(l, []byte("\n"))...), []byte("=\n")...)
+					},
 					func(l []byte) []byte { return bytes.ToLower(l) },
 				} {
 					nl := respell(lines[li])
